@@ -11,7 +11,7 @@ from .core import HarnessError
 
 TIERS = {
     # per property: (number of runs, wall budget for the search phase in seconds)
-    "quick": {"C03": (900, 150), "C12": (600, 150), "C20": (160, 150)},
+    "quick": {"C03": (750, 160), "C12": (600, 160), "C20": (260, 160)},
     "thorough": {"C03": (12000, 1800), "C12": (10000, 1800), "C20": (4000, 1800)},
 }
 
